@@ -123,7 +123,7 @@ def arith_items(rng, n):
 def arith(rng, tier, nshards, res):
     import c07
     before = len(res.failures)
-    c07.check_pairs(arith_items(rng, (5000 if tier == 'quick' else 120000) // nshards), res, 'A:add-sub-mul-wide')
+    c07.check_pairs(arith_items(rng, (15000 if tier == 'quick' else 120000) // nshards), res, 'A:add-sub-mul-wide')
     for fl in res.failures[before:]:
         fl['what'] = fl['what'].replace('C07:', 'C19:')
 
@@ -133,7 +133,7 @@ def replay_arith(c, res):
 
 def shard(shard, nshards, rng, tier, extra):
     res = Result()
-    run_store(store_cases(rng, (6000 if tier == 'quick' else 150000) // nshards), res)
+    run_store(store_cases(rng, (18000 if tier == 'quick' else 150000) // nshards), res)
     if 'arith' in globals():
         arith(rng, tier, nshards, res)
     return res
